@@ -26,3 +26,7 @@ impl Ping {
 }
 
 simple_frame_codec!(Ping {}, ping_tag!());
+
+#[cfg(all(aws_s2n_quic_verif, test))]
+#[path = "/verif/harness/core/frame_ping.rs"]
+mod verif;
